@@ -114,6 +114,15 @@ fn entry_points<K: Kmer + Send + Sync>(o: &mut Outcome, stage: &str, stranded: b
             },
         ),
     );
+    // (4) a reduction whose two arguments play DIFFERENT roles (accumulator, k-mer payload): every k-mer starts
+    // with payload 1 and each fold step adds 100 to the accumulator, so a node of n k-mers must carry 1 + 100 (n - 1)
+    // in whatever order its k-mers were absorbed
+    let tab_one: Tab<K, u32> = tab.iter().map(|(k, (e, _))| (*k, (*e, 1u32))).collect();
+    let spec_steps = SimpleCompress::new(|acc: u32, _kmer: &u32| acc + 100);
+    for (name, bg) in [("slice", compress_kmers(stranded, &spec_steps, &tab_one)), ("with_hash", compress_kmers_with_hash(stranded, &spec_steps, &hash_of(&tab_one)))] {
+        let (_, gv) = finish_view(bg);
+        note(o, &format!("{}/{}/fold-steps", stage, name), check_payload(&gv, &|ks: &[S]| 1 + 100 * (ks.len() as u32 - 1), &|d: &u32, e: &u32| d == e));
+    }
 }
 
 pub fn run<K: Kmer + Send + Sync>(c: &GCase) -> Outcome {
